@@ -393,7 +393,7 @@ CVIEWS = ["evalpts", "bbox", "tess", "delta"]
 
 @st.composite
 def _cstep(draw):
-    m = draw(st.sampled_from(["add", "delta", "sample", "edit_element", "translate", "copy_add", "noop", "ops_copy"]))
+    m = draw(st.sampled_from(["add", "delta", "sample", "edit_element", "translate", "copy_add", "noop", "ops_copy", "delta_dir", "sample_dir"]))
     return {"m": m, "views": draw(st.lists(st.sampled_from(CVIEWS), min_size=0, max_size=3, unique=True)),
             "n": draw(st.integers(3, 6)), "seed": draw(st.integers(0, 10 ** 6)), "i": draw(st.integers(0, 7)),
             "vec": [draw(st.integers(-16, 16)) / 8.0 for _ in range(3)]}
@@ -480,6 +480,14 @@ def check_container(case, ctx):
             seq.append(m)
             cached.clear()
             dirty.clear()
+        elif m in ("delta_dir", "sample_dir"):
+            # per-direction density setters of surface / volume containers
+            if cont.pdimension > 1:
+                nm = ("delta_" if m == "delta_dir" else "sample_size_") + "uvw"[s["i"] % cont.pdimension]
+                setattr(cont, nm, 1.0 / s["n"] if m == "delta_dir" else s["n"])
+                seq.append(m)
+                cached.clear()
+                dirty.clear()
         elif m == "edit_element":
             e = list(cont)[s["i"] % len(cont)]
             e.ctrlpts = _pts(len(e.ctrlpts), e.dimension, s["seed"])
